@@ -187,9 +187,12 @@ var c10Msgs = []string{
 	"<a href=\"x\">{$a}</a> <a href=\"y\">{$b}</a>",                // 11 two link tags that differ in an attribute
 	"{$a|truncate:5} is short for {$a|truncate:40}{$a|truncate:5}", // 12 one directive with different arguments
 	"{$a.b}{$a?.b}{$a['b']}{$a.b}",                                 // 13 access styles of one field
-	"1 < 2 <b>x</b> and a <= b <br/> c",   // 14 '<' that does not begin a tag, before real tags
-	"<<a href=\"u\">>t</a> < </b>",          // 15
+	"1 < 2 <b>x</b> and a <= b <br/> c",                            // 14 '<' that does not begin a tag, before real tags
+	"<<a href=\"u\">>t</a> < </b>",                                 // 15
 	"{plural $n}{case 0}none{case 2}two{case 1}one {$n}{default}{$n} many{/plural}", // 16 several explicit cases
+	"{$x1}{$x2} or {$a.x}/{$b.x}",                                     // 17 two consecutive suffixed names are taken before a base name needs suffixes
+	"{$x1}{$x3} or {$a.x}/{$b.x}/{$c.x}",                              // 18 taken names with a gap
+	"{plural $c[0]}{case 1}one {$c[0]}{default}{$c[0]} many{/plural}", // 19 one nameless expression as plural selector (NUM) and as print (XXX)
 }
 
 // the official placeholder string of some messages (what their id is the fingerprint of)
